@@ -14,7 +14,7 @@ from . import ctx as _ctx
 from .ctx import OutOfReach, SpecError
 from .sym import SymBool, SymInt, SymReal, SymStr, is_sym, mk_bool, mk_num, num_term, to_z3_bool
 from . import types as T
-from .types import Int, Real, Bool, Str, Any, Opt, Tuple, Val
+from .types import Int, Real, Bool, Str, Any, Opt, Tuple, Val, Fn
 from .heap import (Ref, OptRef, Seq, Map, Set, ClassInfo, REG, ObjProxy, SymList, SymDict, SymSet, Box,
                    same, new_object)
 from . import loader as _loader
@@ -25,7 +25,14 @@ __all__ = ["Int", "Real", "Bool", "Str", "Any", "Opt", "Tuple", "Val", "Ref", "O
            "Set", "cls", "fn", "ctor", "lemma", "loop", "ghost", "implies", "ite", "forall", "exists",
            "same", "slen", "contains", "TASKS", "Contract", "iff", "all_of", "any_of", "sym_and",
            "sym_or", "fresh", "assume", "oblige", "unchanged", "z3", "seq_term", "to_z3_bool",
-           "mk_bool", "mk_num", "new_object", "num", "T", "stub_of", "REG", "valueclass", "Yields"]
+           "mk_bool", "mk_num", "new_object", "num", "T", "stub_of", "REG", "valueclass", "Yields", "Fn", "ObjProxy", "SymList", "SymDict", "SymSet",
+           "s_union", "s_inter", "s_diff", "s_eq", "s_subset", "s_disjoint", "s_is_empty", "s_has", "s_add",
+           "native"]
+
+
+def native():
+    """True while a clause is evaluated by the replay harness on real objects."""
+    return not _ctx.active()
 
 TASKS = []          # everything to verify, in declaration order
 CONTRACTS = {}      # (pyclass or module name, fname) -> Contract
@@ -35,6 +42,11 @@ CONTRACTS = {}      # (pyclass or module name, fname) -> Contract
 def implies(a, b):
     if isinstance(a, bool):
         return True if not a else b
+    if getattr(b, "_q_kind", None) == "forall" and not getattr(a, "_q_kind", None):
+        body = b.body
+        return forall(b.ty, lambda x: implies(a, body(x)), b.name)
+    if getattr(b, "_q_kind", None) == "conj" and not getattr(a, "_q_kind", None):
+        return QConj([implies(a, p) for p in b.parts])
     return mk_bool(z3.Implies(to_z3_bool(a), to_z3_bool(b)))
 
 
@@ -65,8 +77,87 @@ all_of = sym_and
 any_of = sym_or
 
 
+class QForall(SymBool):
+    """`forall x:ty. body(x)` kept symbolic: at the top level of an assumption it becomes a
+    hand-instantiated fact, at the top level of an obligation it is skolemised (see ctx.py);
+    anywhere else it degrades to the z3 quantifier `.t`."""
+    __slots__ = ("ty", "body", "name")
+    _q_kind = "forall"
+
+    def __init__(self, ty, body, name, t):
+        SymBool.__init__(self, t)
+        self.ty, self.body, self.name = ty, body, name
+
+    def __and__(self, o):
+        return QConj([self, o])
+
+    __rand__ = __and__
+
+    def __or__(self, o):
+        if getattr(o, "_q_kind", None):
+            return SymBool.__or__(self, o)
+        body = self.body
+        return forall(self.ty, lambda x: o | body(x), self.name)
+
+    __ror__ = __or__
+
+
+class QConj(SymBool):
+    __slots__ = ("parts",)
+    _q_kind = "conj"
+
+    def __init__(self, parts):
+        flat = []
+        for p in parts:
+            flat.extend(p.parts if isinstance(p, QConj) else [p])
+        self.parts = flat
+        SymBool.__init__(self, z3.And(*[to_z3_bool(p) for p in flat]))
+
+    def __and__(self, o):
+        return QConj([self, o])
+
+    __rand__ = __and__
+
+    def __or__(self, o):
+        if getattr(o, "_q_kind", None):
+            return SymBool.__or__(self, o)
+        return QConj([o | p for p in self.parts])       # distribute: a | (P & Q) == (a|P) & (a|Q)
+
+    __ror__ = __or__
+
+
+NATIVE_UNIVERSE = []      # set by the replay harness: atoms of the concrete pre/post state
+
+
+def _native_domain(ty):
+    if ty is Int:
+        return [x for x in NATIVE_UNIVERSE if isinstance(x, int) and not isinstance(x, bool)]
+    if ty is Str:
+        return [x for x in NATIVE_UNIVERSE if isinstance(x, str)]
+    if ty is Real:
+        return [x for x in NATIVE_UNIVERSE if isinstance(x, (int, float)) and not isinstance(x, bool)]
+    if isinstance(ty, Ref):
+        return [x for x in NATIVE_UNIVERSE if isinstance(x, ty.cls)]
+    return []
+
+
+def _truth(v):
+    if isinstance(v, SymBool):
+        t = z3.simplify(v.t)
+        if z3.is_true(t):
+            return True
+        if z3.is_false(t):
+            return False
+        raise ValueError("clause value is not concrete")
+    return bool(v)
+
+
 def forall(ty, body, name="q"):
-    """forall x:ty. body(x) -- body receives the wrapped bound variable."""
+    """forall x:ty. body(x) -- body receives the wrapped bound variable.  Natively (replay) the
+    quantifier ranges over the atoms of the concrete state, which contain any witness the
+    solver's model used."""
+    if not _ctx.active():
+        return all(_truth(body(x)) for x in _native_domain(ty))
     c = _ctx.cur()
     v = c.fresh("q_" + name, ty.sort())
     c.spec_mode += 1
@@ -74,10 +165,12 @@ def forall(ty, body, name="q"):
         b = body(_wrap_quant(ty, v))
     finally:
         c.spec_mode -= 1
-    return mk_bool(z3.ForAll([v], to_z3_bool(b)))
+    return QForall(ty, body, name, z3.ForAll([v], to_z3_bool(b)))
 
 
 def exists(ty, body, name="e"):
+    if not _ctx.active():
+        return any(_truth(body(x)) for x in _native_domain(ty))
     c = _ctx.cur()
     v = c.fresh("e_" + name, ty.sort())
     c.spec_mode += 1
@@ -117,6 +210,55 @@ def contains(container, x):
     return x in container
 
 
+# ---- finite-set values in clauses: z3 `Array(T, Bool)` symbolically, frozenset natively -------
+def _nat(*xs):
+    return all(isinstance(x, (set, frozenset)) for x in xs)
+
+
+def s_union(a, b):
+    return frozenset(a) | frozenset(b) if _nat(a, b) else z3.SetUnion(a, b)
+
+
+def s_inter(a, b):
+    return frozenset(a) & frozenset(b) if _nat(a, b) else z3.SetIntersect(a, b)
+
+
+def s_diff(a, b):
+    return frozenset(a) - frozenset(b) if _nat(a, b) else z3.SetDifference(a, b)
+
+
+def s_eq(a, b):
+    return frozenset(a) == frozenset(b) if _nat(a, b) else mk_bool(a == b)
+
+
+def s_subset(a, b):
+    return frozenset(a) <= frozenset(b) if _nat(a, b) else mk_bool(z3.IsSubset(a, b))
+
+
+def s_disjoint(a, b):
+    if _nat(a, b):
+        return not (frozenset(a) & frozenset(b))
+    return mk_bool(z3.SetIntersect(a, b) == z3.K(a.sort().domain(), z3.BoolVal(False)))
+
+
+def s_is_empty(a):
+    if _nat(a):
+        return len(a) == 0
+    return mk_bool(a == z3.K(a.sort().domain(), z3.BoolVal(False)))
+
+
+def s_has(a, x, ty=None):
+    if _nat(a):
+        return x in a
+    return mk_bool(z3.Select(a, ty.unwrap(x) if ty is not None else x))
+
+
+def s_add(a, x, ty=None):
+    if _nat(a):
+        return frozenset(a) | {x}
+    return z3.Store(a, ty.unwrap(x) if ty is not None else x, z3.BoolVal(True))
+
+
 def seq_term(x):
     if isinstance(x, SymList):
         return x.term
@@ -132,7 +274,7 @@ def fresh(ty, name="v"):
 
 
 def assume(b):
-    _ctx.cur().assume(to_z3_bool(b))
+    _ctx.cur().assume_value(b)
 
 
 def oblige(name, b, kind="lemma"):
@@ -142,6 +284,14 @@ def oblige(name, b, kind="lemma"):
 def unchanged(s, obj, *fields):
     """obj's listed fields (default: all declared, non-ghost fields) equal their pre-state."""
     o = s.old(obj)
+    if not isinstance(obj, ObjProxy):      # native replay
+        names = list(fields)
+        if not names:
+            for k in type(obj).__mro__:
+                ci = REG.classes.get(k)
+                if ci:
+                    names.extend(ci.fields)
+        return all(getattr(obj, f, None) == getattr(o, f, None) for f in names)
     ci_fields = []
     if not fields:
         for k in obj._cls.__mro__:
